@@ -58,24 +58,41 @@ def _key_bytes():
     return bytes((i * 11 + 3) % 256 for i in range(16))
 
 
-def _handshake_reply():
+def _handshake_reply(deflate=False):
     from lomond import constants
     key = base64.b64encode(_key_bytes())
     accept = base64.b64encode(hashlib.sha1(key + constants.WS_KEY).digest())
     return (b'HTTP/1.1 101 Switching Protocols\r\nUpgrade: websocket\r\nConnection: Upgrade\r\n'
-            b'Sec-WebSocket-Accept: ' + accept + b'\r\n\r\n')
+            b'Sec-WebSocket-Accept: ' + accept + b'\r\n' + (b'Sec-WebSocket-Extensions: permessage-deflate\r\n' if deflate else b'') + b'\r\n')
 
 
 def build_stream(msgs):
     """msgs: [[kind, n, nfrag], ...] -> (stream bytes, [(end_offset_exclusive, kind, payload)]) ; item 0 is the handshake"""
     from refcodec import server_frame
-    parts = [_handshake_reply()]
+    z = any(m[0].startswith('z') for m in msgs)
+    parts = [_handshake_reply(z)]
     marks = [(len(parts[0]), 'ready', b'')]
     pos = len(parts[0])
+    peer = None
+    if z:
+        from refcodec import DeflatePeer
+        peer = DeflatePeer()
     for i, (kind, n, nfrag) in enumerate(msgs):
-        p = _payload(kind, i, n)
+        p = _payload(kind[1:] if kind.startswith('z') else kind, i, n)
         if kind == 'ping':
             fr = server_frame(9, p)
+        elif kind.startswith('z'):
+            # compressed message: the wire payload split into |nfrag| fragments; nfrag < 0: plus an EMPTY final fragment
+            wire = peer.compress(p)
+            k = max(1, min(abs(nfrag), max(1, len(wire))))
+            step = -(-len(wire) // k) if wire else 0
+            pieces = [wire[j:j + step] for j in range(0, len(wire), step)] if wire else [b'']
+            if nfrag < 0:
+                pieces.append(b'')
+            op = 1 if kind == 'ztext' else 2
+            fr = b''.join(server_frame(op if j == 0 else 0, piece, fin=1 if j == len(pieces) - 1 else 0, rsv1=1 if j == 0 else 0)
+                          for j, piece in enumerate(pieces))
+            kind = kind[1:]
         else:
             op = 1 if kind == 'text' else 2
             nfrag = max(1, min(nfrag, max(1, n)))
@@ -471,6 +488,15 @@ def gen_msgs(rng, family):
         for _ in range(rng.randint(1, 3)):
             msgs.append(['binary', rng.choice([BUF - 200, BUF - 10, BUF - 4, BUF, BUF + 1, 2 * BUF - 7, 2 * BUF + 3]), rng.choice([1, 1, 4])])
             msgs.append([rng.choice(['text', 'ping']), rng.randint(0, 100), 1])
+    elif family == 'compressed':
+        for _ in range(rng.choice([5, 20, 60])):
+            r = rng.random()
+            if r < 0.15:
+                msgs.append(['ping', rng.randint(0, 125), 1])
+            elif r < 0.75:
+                msgs.append([rng.choice(['ztext', 'zbinary']), rng.randint(0, 300), rng.choice([1, 2, 3, -1, -2])])
+            else:
+                msgs.append([rng.choice(['text', 'binary']), rng.randint(0, 100), rng.choice([1, 2])])
     elif family == 'big':
         msgs.append(['binary', rng.choice([200000, 262144, 300000]), rng.choice([1, 1, 5])])
         for _ in range(rng.randint(0, 5)):
@@ -722,7 +748,7 @@ def explore(res, tier, seed, model_ok=True):
     _set_buf()
     rng = random.Random(seed)
     res.rule = ('arrival patterns = (message list) x (segmentation) x (time stamps) x transport in {plain, TLS 16 KiB records, TLS-like jumbo records > BUFFER_SIZE}: '
-                'families small-frames (20-400 frames of 0-200 bytes, many per record), record-edge (messages of 16384+-40), buffer-edge (65536+-, 131072+-), big (200-300 KB); '
+                'families small-frames (20-400 frames of 0-200 bytes, many per record), record-edge (messages of 16384+-40), buffer-edge (65536+-, 131072+-), big (200-300 KB), compressed (permessage-deflate negotiated: compressed fragmented messages incl. empty final fragments, pings in between); '
                 'segmentation whole / random cuts / boundary-size bursts / whole frames; gaps 0 (same-tick bursts) .. 3*poll (timeouts in between); '
                 'exhaustive grid: burst size {16383,16384,16385,32768,65535,65536,65537,131071,131072,131073} x transport x gap; '
                 'plus real loopback TCP and TLS echo rounds; non-trivial = some arrival carries more than one frame, or exceeds a record / the buffer, or a timeout separates arrivals; '
@@ -737,7 +763,7 @@ def explore(res, tier, seed, model_ok=True):
                 cases.append(grid_case(b, tr, g))
                 ngrid += 1
     n = 120 if tier == 'quick' else 2500
-    fams = ['small-frames'] * 4 + ['record-edge'] * 2 + ['buffer-edge'] * 2 + ['big']
+    fams = ['small-frames'] * 4 + ['record-edge'] * 2 + ['buffer-edge'] * 2 + ['big'] + ['compressed'] * 2
     for _ in range(n):
         cases.append(make_case(rng, rng.choice(fams), rng.choice(['plain', 'tls', 'tls', 'jumbo'])))
     outs = runner.parallel_map('props.c18', 'run_case', cases, chunk=8)
